@@ -1,4 +1,213 @@
-(** Harness glue for C17 (stub: no families yet). *)
-From Coq Require Import List String.
-From KV Require Import Glue.Val.
-Definition c17_run (fam : string) (args : list val) : option string := None.
+(** Harness glue for C17: the model's verdict on one generated program.
+    Rendering mirrors lib/gen/c17.py (tables KINDS / METHODS, same order). *)
+From Coq Require Import List ZArith Bool String.
+From KV Require Import Base.Prelude Model.Guards Glue.Val.
+Import ListNotations.
+Local Open Scope string_scope.
+
+Definition method_table : list (mname * string) :=
+  [(Copied, "copied"); (Filter, "filter"); (FilterMap, "filter_map"); (FlatMap, "flat_map");
+   (Flatten, "flatten"); (Map, "map"); (TakeWhile, "take_while"); (Rev, "rev"); (Rfind, "rfind");
+   (All, "all"); (Any, "any"); (Count, "count"); (Find, "find"); (FindMap, "find_map");
+   (Rfold, "rfold"); (Fold, "fold"); (ForEach, "for_each"); (Nth, "nth"); (Next, "next");
+   (Position, "position"); (Rposition, "rposition"); (Zip, "zip"); (Enumerate, "enumerate");
+   (Take, "take"); (Skip, "skip"); (SkipWhile, "skip_while"); (Other, "other")].
+
+(** (kind, printed name, carries a method name) *)
+Definition kind_table : list (dkind * string * bool) :=
+  [(KNoParens, "noparens", true); (KRev2, "rev2", true); (KUnsup, "unsup", true);
+   (KNotCallable, "notcallable", true); (KUnsupEval, "unsup_eval", true); (KArgs, "args", true);
+   (KNoExpr, "noexpr", false); (KClosure, "closure", true); (KFold, "fold", false);
+   (KTrailing, "trailing", false); (KPmMethod, "pm_method", false);
+   (KPmAfterDefault, "pm_after_default", false); (KPmMore, "pm_more", false);
+   (KPmNonLit, "pm_nonlit", false); (KRestStruct, "rest_struct", false);
+   (KRestTStruct, "rest_tstruct", false); (KRestTuple, "rest_tuple", false);
+   (KE0308, "E0308", false); (KE0027, "E0027", false); (KE0026, "E0026", false);
+   (KE0769, "E0769", false); (KE0527, "E0527", false); (KE0528, "E0528", false);
+   (KNoMatch, "nomatch", false)].
+
+Definition mname_eqb (a b : mname) : bool :=
+  match a, b with
+  | Copied, Copied | Filter, Filter | FilterMap, FilterMap | FlatMap, FlatMap | Flatten, Flatten
+  | Map, Map | TakeWhile, TakeWhile | Rev, Rev | Rfind, Rfind | All, All | Any, Any | Count, Count
+  | Find, Find | FindMap, FindMap | Rfold, Rfold | Fold, Fold | ForEach, ForEach | Nth, Nth
+  | Next, Next | Position, Position | Rposition, Rposition | Zip, Zip | Enumerate, Enumerate
+  | Take, Take | Skip, Skip | SkipWhile, SkipWhile | Other, Other => true
+  | _, _ => false
+  end.
+Definition dkind_eqb (a b : dkind) : bool :=
+  match a, b with
+  | KNoParens, KNoParens | KRev2, KRev2 | KUnsup, KUnsup | KNotCallable, KNotCallable
+  | KUnsupEval, KUnsupEval | KArgs, KArgs | KNoExpr, KNoExpr | KClosure, KClosure | KFold, KFold
+  | KTrailing, KTrailing | KPmMethod, KPmMethod | KPmAfterDefault, KPmAfterDefault
+  | KPmMore, KPmMore | KPmNonLit, KPmNonLit | KRestStruct, KRestStruct
+  | KRestTStruct, KRestTStruct | KRestTuple, KRestTuple | KE0308, KE0308 | KE0027, KE0027
+  | KE0026, KE0026 | KE0769, KE0769 | KE0527, KE0527 | KE0528, KE0528 | KNoMatch, KNoMatch
+  | KOther, KOther => true
+  | _, _ => false
+  end.
+
+Definition has_kind (ds : list diag) (k : dkind) : bool := existsb (fun d => dkind_eqb (fst d) k) ds.
+Definition has_diag (ds : list diag) (k : dkind) (m : mname) : bool :=
+  existsb (fun d => dkind_eqb (fst d) k && mname_eqb (snd d) m) ds.
+
+(** the recognised guards in table order *)
+Definition rendered (ds : list diag) : list string :=
+  flat_map (fun e : dkind * string * bool =>
+              let '(k, nm, named) := e in
+              if named then
+                flat_map (fun me : mname * string =>
+                            if has_diag ds k (fst me) then [nm ++ "(" ++ snd me ++ ")"] else [])
+                         method_table
+              else if has_kind ds k then [nm] else [])
+           kind_table.
+
+Fixpoint join_plus (l : list string) : string :=
+  match l with
+  | [] => ""
+  | [x] => x
+  | x :: r => x ++ "+" ++ join_plus r
+  end.
+
+Definition show_verdict (ds : list diag) : string :=
+  match ds with
+  | [] => "ACCEPT"
+  | _ => match rendered ds with
+         | [] => "REJECT:other"
+         | l => "REJECT:" ++ join_plus l
+         end
+  end.
+
+(* ------------------------------------------------------------------ parsing the descriptors *)
+
+Fixpoint lookup_name (t : list (mname * string)) (s : string) : mname :=
+  match t with
+  | [] => Other
+  | (m, n) :: r => if String.eqb n s then m else lookup_name r s
+  end.
+
+Definition parse_shape (s : string) : option ashape :=
+  if String.eqb s "n" then Some NoParens
+  else if String.eqb s "e" then Some Empty
+  else if String.eqb s "g" then Some Given
+  else None.
+
+Fixpoint all_some {A} (l : list (option A)) : option (list A) :=
+  match l with
+  | [] => Some []
+  | Some x :: r => match all_some r with Some r' => Some (x :: r') | None => None end
+  | None :: _ => None
+  end.
+
+Definition parse_meth (v : val) : option meth :=
+  match v with
+  | VL [VA n; VA s] => match parse_shape s with Some a => Some (lookup_name method_table n, a) | None => None end
+  | _ => None
+  end.
+
+Definition parse_pos (s : string) : option pos :=
+  if String.eqb s "for_each" then Some PForEach
+  else if String.eqb s "collect" then Some PCollect
+  else if String.eqb s "eval" then Some PEval
+  else None.
+
+Definition parse_pat (v : val) : option pat :=
+  match v with
+  | VA s =>
+      if String.eqb s "s" then Some PStr else if String.eqb s "r" then Some PRaw
+      else if String.eqb s "c" then Some PConcat else if String.eqb s "y" then Some PStringify
+      else if String.eqb s "w" then Some PWild else if String.eqb s "k" then Some PConst
+      else if String.eqb s "q" then Some PPath else if String.eqb s "b" then Some PByteStr
+      else if String.eqb s "i" then Some PInt else if String.eqb s "h" then Some PChar
+      else None
+  | _ => None
+  end.
+
+Definition parse_branch (v : val) : option branch :=
+  match v with
+  | VL [VL ps; VA b; VZ c] =>
+      match all_some (map parse_pat ps) with
+      | Some ps' =>
+          if String.eqb b "e" then Some {| b_pats := ps'; b_body := BExpr; b_comma := negb (c =? 0)%Z |}
+          else if String.eqb b "b" then Some {| b_pats := ps'; b_body := BBlock; b_comma := negb (c =? 0)%Z |}
+          else None
+      | None => None
+      end
+  | _ => None
+  end.
+
+Definition parse_form (s : string) : pm_form :=
+  if String.eqb s "find_skip" then FindSkip else if String.eqb s "rfind_skip" then RfindSkip
+  else if String.eqb s "strip_prefix" then StripPrefix else if String.eqb s "strip_suffix" then StripSuffix
+  else if String.eqb s "trim_start_matches" then TrimStart else if String.eqb s "trim_end_matches" then TrimEnd
+  else Bogus.
+
+Definition parse_elem (v : val) : option elem :=
+  match v with
+  | VZ i => Some (EF i)
+  | VA s => if String.eqb s "r" then Some ER else if String.eqb s "a" then Some EA else None
+  | _ => None
+  end.
+
+Definition parse_dshape (s : string) : option dshape :=
+  if String.eqb s "braced" then Some Braced else if String.eqb s "tstruct" then Some TStruct
+  else if String.eqb s "tuple" then Some Tuple else if String.eqb s "array" then Some Array
+  else None.
+
+(** the generated programs declare one type: struct `Foo` (= name 0) with n fields, or an
+    n-tuple / array of n elements; the annotation, when present, is the value's type *)
+Definition c17_destructure (sh : dshape) (pk : string) (ann : Z) (es : list elem) (n drop isref : Z)
+  : string :=
+  let nn := Z.to_nat n in
+  let base := match sh with
+              | Braced | TStruct => TNamed 0
+              | Tuple => TTuple nn
+              | Array => TArray nn end in
+  let t := if (isref =? 0)%Z then base else TRef base in
+  let E := {| fields := fun _ => map Z.of_nat (seq 0 nn);
+              impls_drop := fun _ => negb (drop =? 0)%Z;
+              tuple_like := fun _ => match sh with TStruct => true | _ => false end |} in
+  let d := {| d_shape := sh;
+              d_pk := if String.eqb pk "type" then PkType else PkPath;
+              d_path := 0;
+              d_ann := if (ann =? 0)%Z then None else Some t;
+              d_elems := es;
+              d_ty := t |} in
+  show_verdict (destructure_diags E d).
+
+Definition c17_run (fam : string) (args : list val) : option string :=
+  if String.eqb fam "c17.dsl" then
+    match args with
+    | [VA p; VL ms] =>
+        match parse_pos p, all_some (map parse_meth ms) with
+        | Some p', Some ms' => Some (show_verdict (dsl_expands p' ms'))
+        | _, _ => None
+        end
+    | _ => None
+    end
+  else if String.eqb fam "c17.parser_method" then
+    match args with
+    | [VA f; VA syn; VL body] =>
+        if String.eqb syn "p" then
+          match all_some (map parse_pat body) with
+          | Some ps => Some (show_verdict (pm_expands (parse_form f) (PatsOnly ps)))
+          | None => None
+          end
+        else if String.eqb syn "b" then
+          match all_some (map parse_branch body) with
+          | Some bs => Some (show_verdict (pm_expands (parse_form f) (Branches bs)))
+          | None => None
+          end
+        else None
+    | _ => None
+    end
+  else if String.eqb fam "c17.destructure" then
+    match args with
+    | [VA sh; VA pk; VZ ann; VL es; VZ n; VZ drop; VZ isref] =>
+        match parse_dshape sh, all_some (map parse_elem es) with
+        | Some sh', Some es' => Some (c17_destructure sh' pk ann es' n drop isref)
+        | _, _ => None
+        end
+    | _ => None
+    end
+  else None.
